@@ -422,7 +422,9 @@ def checkC12 (h : History) (obs : List RunObs) : Option String :=
         else none
       -- a run whose context was cancelled ends with the CONTEXT error, whatever the status watcher reported meanwhile
       let badReason := if o.cancelCalled && es.getLast? = some (Ev.error "watcher")
-        then some "the caller's context was cancelled, yet the run ends with the watcher's error instead of the context error" else none
+        then some "the caller's context was cancelled, yet the run ends with the watcher's error instead of the context error"
+        else if es.getLast? = some (Ev.error "cause")
+        then some "the run ends with the cause the caller cancelled its context with, not with the context error" else none
       let early := if "early-timeout".isPrefixOf o.anomaly then some o.anomaly
         else if (o.anomaly.splitOn "after the context was cancelled").length > 1 then some o.anomaly else none
       (badTimeout <|> badCancel <|> badReason <|> early).map (fun s => s!"C12 run {k}: {s}")
